@@ -3,6 +3,7 @@
 package app
 
 import (
+	"strconv"
 	"bytes"
 	"encoding/base64"
 	"encoding/json"
@@ -305,7 +306,10 @@ func genC18Case() *rapid.Generator[C18Case] {
 		c.Mode = rapid.SampledFrom([]string{"pause", "pause", "body-read", "body-read", "failed", "pull-in-flight", "publish-in-flight"}).Draw(t, "mode")
 		c.Pause = rapid.SampledFrom([]string{"state.write-unlocked", "state.write-unlocked", "reload.after-loadauth", "reload.after-updateall"}).Draw(t, "pause")
 		c.Warm = rapid.Bool().Draw(t, "warm")
-		c.Fail = rapid.SampledFrom([]string{"removed", "directory", "garbage", "uncompilable", "secret-missing", "secret-missing-adaptive", "secret-missing-ratelimit", "restart-listen", "restart-max-body", "restart-prefix", "truncated"}).Draw(t, "fail")
+		c.Fail = rapid.SampledFrom([]string{"removed", "directory", "garbage", "uncompilable", "secret-missing", "secret-missing-adaptive", "secret-missing-ratelimit", "restart-listen", "restart-max-body", "restart-prefix", "truncated", "restart-pair", "restart-pair"}).Draw(t, "fail")
+		if c.Fail == "restart-pair" {
+			c.Fail = fmt.Sprintf("restart-pair-%d", rapid.IntRange(0, len(c18RestartPairs)-1).Draw(t, "restart_pair"))
+		}
 		return c
 	})
 }
@@ -358,6 +362,13 @@ func runC18(c C18Case, tolerate bool) *fOutcome {
 	verifhook.Reset()
 	defer verifhook.Reset()
 	oldText, newText := c.Old.text(""), c.New.text("")
+	restartPair := -1
+	if c.Mode == "failed" && strings.HasPrefix(c.Fail, "restart-pair-") {
+		if k, err := strconv.Atoi(strings.TrimPrefix(c.Fail, "restart-pair-")); err == nil && k >= 0 && k < len(c18RestartPairs) {
+			restartPair = k
+			oldText = c.Old.text(c18RestartPairs[k][0]) // the running process and the untouched reference start with this
+		}
+	}
 	mkWorld := func(src string) *frontWorld {
 		w, err := newFrontWorld(src, worldOpts{withFile: true})
 		if err != nil {
@@ -427,6 +438,10 @@ func runC18(c C18Case, tolerate bool) *fOutcome {
 			content = []byte(c.New.text("defaults {\n  max_body 1kb\n}\n"))
 		case "restart-prefix":
 			content = []byte(strings.Replace(newText, "  listen 0.0.0.0:0\n", "  listen 0.0.0.0:0\n  prefix /adm\n", 1))
+		default:
+			if restartPair >= 0 {
+				content = []byte(c.New.text(c18RestartPairs[restartPair][1]))
+			}
 		}
 		if content != nil {
 			if err := os.WriteFile(w.cfgPath, content, 0o600); err != nil {
@@ -1166,4 +1181,22 @@ func TestProp_C08_ReloadWindow(t *testing.T) {
 		}
 		return out
 	})
+}
+
+// c18RestartPairs: (settings the process was started with, the same settings as edited in the reloaded file). Every
+// edit is one the documentation lists under "Restart Required" (queue limits / retention / DLQ retention, global
+// defaults): the reload must be refused and nothing of the new file - its routes, tokens, limits - may take effect.
+// Seed C18-14: a changed prune_interval was no longer noticed while queue_retention.max_age is off, although the
+// interval also drives the DLQ and delivered-retention sweeps.
+var c18RestartPairs = [][2]string{
+	{"queue_retention {\n  max_age off\n  prune_interval 30s\n}\n", "queue_retention {\n  max_age off\n  prune_interval 10s\n}\n"},
+	{"queue_retention {\n  max_age 1h\n  prune_interval 30s\n}\n", "queue_retention {\n  max_age 2h\n  prune_interval 30s\n}\n"},
+	{"queue_retention {\n  max_age 1h\n  prune_interval 30s\n}\n", "queue_retention {\n  max_age 1h\n  prune_interval 31s\n}\n"},
+	{"dlq_retention {\n  max_age 1h\n  max_depth 100\n}\n", "dlq_retention {\n  max_age 1h\n  max_depth 101\n}\n"},
+	{"dlq_retention {\n  max_age 1h\n  max_depth 100\n}\n", "dlq_retention {\n  max_age 2h\n  max_depth 100\n}\n"},
+	{"delivered_retention {\n  max_age 1h\n}\n", "delivered_retention {\n  max_age 2h\n}\n"},
+	{"", "delivered_retention {\n  max_age 1h\n}\n"},
+	{"queue_limits {\n  max_depth 100\n  drop_policy reject\n}\n", "queue_limits {\n  max_depth 101\n  drop_policy reject\n}\n"},
+	{"queue_limits {\n  max_depth 100\n  drop_policy reject\n}\n", "queue_limits {\n  max_depth 100\n  drop_policy drop_oldest\n}\n"},
+	{"defaults {\n  max_headers 8kb\n}\n", "defaults {\n  max_headers 9kb\n}\n"},
 }
